@@ -111,13 +111,24 @@ def case_fasta(run, i):
         argv = ["access", fa, "-s", str(mg or 0), "-o", out]
         for p in ex_files:
             argv += ["-x", p]
-        try:
-            args = K.parse_args(argv)
-            args.func(args)
-            args.output.close()
+        from ..monitors import cli_plumb
+        r = cli_plumb.check_cli(run, rt, A, "do_access", argv, dict(fa_fname=fa, exclude_fnames=list(ex_files), min_gap_size=int(mg or 0)), "access")
+        if r is not None:
+            got, res, wit = r
             run.extra["cli-access-runs"] += 1
-        except Exception:
-            pass
+            import gc
+            gc.collect()            # the FileType('w') handle argparse opened is flushed when collected
+            if not isinstance(res, Exception):
+                try:
+                    with open(out) as fh:
+                        rows = [(f[0], int(f[1]), int(f[2])) for f in (ln.rstrip("\n").split("\t") for ln in fh if ln.strip())]
+                except OSError:
+                    rows = None
+                want = [(c, int(s_), int(e)) for c, s_, e in zip(res.data["chromosome"], res.data["start"], res.data["end"])]
+                if rows is not None and rows != want and rows:
+                    run.violate("cli.access[plumbing]", "access-cli-file-differs-from-result", f"{len(rows)} BED lines written, {len(want)} regions returned", wit)
+                else:
+                    cli_plumb.held(run, "access", "cli-access")
     import shutil
     shutil.rmtree(d, ignore_errors=True)
     run.end_case(fp=rt.fingerprint([text, mg, skip, len(ex_files)], 12), nontrivial=any(seqs.values()),
